@@ -416,7 +416,11 @@ def fsWrite (fs : List (Str × Table α)) (outs : List (FileOut α)) : List (Str
     the tree under test).  The regenerated functions are PARAMETERS here (the generated file may import this
     one for its `…Hand` fall-backs); `Properties/C18.lean` instantiates them with `Gen.C18.*`. -/
 
-/-- class code handed to the regenerated `classifyWhich`: other 0, SimpleSource 1, IslandSource 2, ComponentSource 3 -/
+/-- class code handed to the regenerated `classifyWhich`: other 0, SimpleSource 1, IslandSource 2, ComponentSource 3.
+    `Cls` is the library class an object is an INSTANCE of (`isinstance`): an instance of a user-defined subclass of
+    ComponentSource has `cls = .component`.  That this abstraction is what the code does — subclass instances
+    (codes 4, 5, 6 of the regenerated table) go where their base class goes — is the obligation
+    `gen_classify_subclasses`; an exact-class dispatch (`type(x) is C`, a dict keyed on `x.__class__`) fails it. -/
 def Cls.code : Cls → Nat
   | .other => 0 | .simple => 1 | .island => 2 | .component => 3
 
@@ -479,6 +483,8 @@ def fitsWidthHand (is_err is_uuid kind maxlen t vlen : Nat) : Nat :=
 
 def sqlCodeHand (t : Nat) : Nat := if t = 0 then 0 else if t = 1 then 1 else if t = 2 then 2 else 3
 
-def classifyWhichHand (c : Nat) : Nat := if c = 3 then 1 else if c = 2 then 2 else if c = 1 then 3 else 0
+/-- class codes 4, 5, 6 = instance of a user-defined subclass of SimpleSource, IslandSource, ComponentSource -/
+def classifyWhichHand (c : Nat) : Nat :=
+  if c = 3 ∨ c = 6 then 1 else if c = 2 ∨ c = 5 then 2 else if c = 1 ∨ c = 4 then 3 else 0
 
 end Aegean.Model.C18
